@@ -24,6 +24,10 @@ func main() {
 		os.Exit(2)
 	}
 	mode := os.Args[1]
+	if mode == "worldtest" {
+		worldSelfTest(3000)
+		return
+	}
 	if mode == "plugin" {
 		pluginMain()
 		return
